@@ -255,7 +255,7 @@ func (c *wsConn) GetResource(rid string, cb func(data *rpc.Resources, err error)
 			}
 
 			cb(sub.GetRPCResources(false), nil)
-			sub.ReleaseRPCResources()
+			sub.UnsendRPCResources()
 			c.Unsubscribe(sub, true, false, 1, true)
 		})
 	})
